@@ -55,6 +55,21 @@ def proj_of(t, leaf):
     return None
 
 
+def option_fields(struct):
+    """names of the Option-typed fields of a struct, read from /repo's source"""
+    import glob
+    import os
+    out = []
+    for path in glob.glob(os.path.join(REPO, 'identity_credential', 'src', '**', '*.rs'), recursive=True):
+        src = open(path, encoding='utf-8').read()
+        m = re.search(r'pub struct %s\b[^{]*\{(.*?)\n\}' % struct, src, re.S)
+        if m:
+            for fm in re.finditer(r'(?:pub(?:\([a-z]+\))? )?(\w+): Option<', m.group(1)):
+                out.append(fm.group(1))
+            break
+    return out
+
+
 def write_locations(claims_term, leaf):
     """{source index tuple: claims index path} for every part of `leaf` stored in the claims aggregate"""
     out = {}
@@ -105,6 +120,42 @@ def run(ctx, prog):
             wmaps.append((p, write_locations(p.term(c), src_leaf)))
             return None
         A.require('%s-claims/new-omits-duplicated-members-from-%s' % (kind, inner_name), okn, r_new, replay=R('[roundtrip]'))
+
+        # optional members keep their presence: with the source member forced to Some(_) the claims location it is written to
+        # holds a value on every path (a converter that turns Some(x) into None - a filter, a default elision - loses data)
+        from execu import State, VOver
+        import models as _models
+        optf = option_fields(Tsrc)
+        for nm in optf:
+            if nm not in SF:
+                continue
+            si = SF.index(nm)
+            st = State()
+            base = VSym(('deref', ('leaf', src_leaf)), Tsrc)
+            some = _models.mk('Option', 'Some', VSym(('field', ('field', base.term, si, ''), 0, 'Some'), ''))
+            st.mem['sym:' + src_leaf] = VOver(base, {(None, si): some})
+            args0 = sym_args(f_new)
+            try:
+                ps, exo = A.paths(f_new, inline=r'jwt_serialization::<impl at [^>]*>::new($|::\{closure)', args=args0, state=st)
+            except Refuse:
+                continue
+            loc = None
+            for p0, m0 in wmaps:
+                for k, v in m0.items():
+                    if k and k[0] == si:
+                        loc = v
+            if loc is None:
+                continue
+
+            def r_keep(p, loc=loc, nm=nm):
+                if p.kind != 'return' or not p.is_ok():
+                    return None
+                at = dict((pa, t) for pa, t in agg_walk(p.term(p.payload())))
+                t = at.get(loc)
+                if isinstance(t, tuple) and t and t[0] == 'agg' and str(t[2]) == 'None':
+                    return 'member %s is present in the source but written as absent' % nm
+                return None
+            A.require('%s-claims/optional-member-%s-keeps-its-presence' % (kind, nm), ps, r_keep, replay=R('[roundtrip]'))
 
         f_into = prog.one(into_rx)
         ipaths, ex2 = A.paths(f_into)
@@ -315,3 +366,11 @@ def main(ctx):
     ctx.outside += ['the JSON text form (serde attributes, flatten, skip_serializing_if)', 'multi-subject credentials beyond their rejection',
                     'Timestamp::to_unix/from_unix being inverse on the range (C13)', 'Cow::into_owned / Borrowed being value-preserving']
     guarded(ctx, 'claims conversion wiring and consistency', 'M', lambda: run(ctx, prog))
+    # presentations: expiry, issuance (nbf before iat) and audience are converted inside the presentation validator, not in
+    # try_into_presentation - C03's obligation on that function is re-used
+    import c03
+
+    def presentation_dates():
+        prog2, info2 = load(c03.CRATES, src_only=c03.SRC)
+        c03.run(ctx, prog2, only=r'^validate/')
+    guarded(ctx, 'presentation dates and audience (validator)', 'M', presentation_dates)
